@@ -67,8 +67,12 @@ Section ABF.
     s_fj : vec;                       (* colvar::fj of each variable as left by the previous step *)
     s_rel : Z;                        (* cvm::step_relative() *)
     s_started : bool;                 (* engine: a step was already made *)
-    s_japp : list bool                (* colvar::prev_Jacobian_force_compensated of each variable: the force applied at the
+    s_japp : list bool;               (* colvar::prev_Jacobian_force_compensated of each variable: the force applied at the
                                          previous step contained the compensation -fj (hideJacobian and f_cv_apply_force) *)
+    s_tfok : bool                     (* colvar::lagged_total_force_available() minus its step_relative() > 0 clause: the
+                                         variables were computed at the previous step of the CURRENT step counter with the total
+                                         force calculation on (prev_timestep, prev_total_force_calc); false after init and after a
+                                         state file was read (colvar::set_state_params resets prev_timestep) *)
   }.
 
   Record abf_in := mkIn {
@@ -170,7 +174,7 @@ Section ABF.
       if c_update c || bget (c_subtract c) k
       then (if c_same_step c
             then (if addj c s k then nadd O (vget (i_e i) k) (vget (i_j i) k) else vget (i_e i) k)
-            else if 0 <? fst (st_clk s i)
+            else if (0 <? fst (st_clk s i)) && s_tfok s
                  then (if addj c s k then nadd O (vget (s_eng s) k) (vget (s_fj s) k) else vget (s_eng s) k)
                  else vget (s_ft s) k)
       else vget (s_ft s) k).
@@ -181,7 +185,7 @@ Section ABF.
     if c_same_step c then st_ft0 c s i
     else vbuild (c_nd c) (fun k =>
            let t := vget (st_ft0 c s i) k in
-           if bget (c_subtract c) k && (0 <? fst (st_clk s i))
+           if bget (c_subtract c) k && ((0 <? fst (st_clk s i)) && s_tfok s)
            then nsub O t (vget (s_fold s) k) else t).
 
   (* colvarbias_abf::update, part I *)
@@ -194,6 +198,7 @@ Section ABF.
     (((0 <? rel) && negb cont) || c_szd c)       (* can_accumulate_data() *)
     && c_update c                                 (* is_enabled(f_cvb_history_dependent) *)
     && ((0 <? rel) || c_same_step c)              (* step_relative() > 0 || total_forces_same_step() *)
+    && (c_same_step c || s_tfok s)                (* every variable collected its total force at this step *)
     && index_ok c (st_fbin c s i).                (* samples->index_ok(force_bin) *)
   (* update_system_force: total force minus the force the ABF bias applied at the previous step *)
   Definition st_sysf (c : abf_cfg) (s : abf_state) (i : abf_in) : vec :=
@@ -240,20 +245,20 @@ Section ABF.
 
   Definition abf_step (c : abf_cfg) (s : abf_state) (i : abf_in) : abf_state * abf_out :=
     (mkSt (st_cnt c s i) (st_sum c s i) (st_bin c i) (st_bin c i) (st_fabf c s i) (st_fapp c s i) (st_ft c s i)
-          (st_fold c s i) (st_eng c s i) (st_fj c i) (fst (st_clk s i)) true (st_japp c i),
+          (st_fold c s i) (st_eng c s i) (st_fj c i) (fst (st_clk s i)) true (st_japp c i) true,
      mkOut (st_bin c i) (st_fabf c s i) (st_fapp c s i) (st_f c s i) (fst (st_clk s i)) (snd (st_clk s i)) (st_ft c s i)).
 
   (* colvarbias_abf::init: bin := 0, force_bin := -1 (outside of every grid: no bin has been recorded yet) *)
   Definition abf_init (c : abf_cfg) : abf_state :=
     let nd := c_nd c in
     mkSt (fun _ => 0) (fun _ => vzero nd) (repeat 0 nd) (repeat (-1) nd)
-         (vzero nd) (vzero nd) (vzero nd) (vzero nd) (vzero nd) (vzero nd) 0 false [].
+         (vzero nd) (vzero nd) (vzero nd) (vzero nd) (vzero nd) (vzero nd) 0 false [] false.
   (* the bias is defined (a second `config`) while the simulation is running: the engine has made steps,
      the last one with step_relative = rel *)
   Definition abf_init_late (c : abf_cfg) (rel : Z) : abf_state :=
     let nd := c_nd c in
     mkSt (fun _ => 0) (fun _ => vzero nd) (repeat 0 nd) (repeat (-1) nd)
-         (vzero nd) (vzero nd) (vzero nd) (vzero nd) (vzero nd) (vzero nd) rel true [].
+         (vzero nd) (vzero nd) (vzero nd) (vzero nd) (vzero nd) (vzero nd) rel true [] false.
 
   Fixpoint abf_run_from (c : abf_cfg) (s : abf_state) (h : list abf_in) : abf_state * list abf_out :=
     match h with
@@ -275,7 +280,7 @@ Section ABF.
   Definition awake (k : Z) (clk : Z * bool) : bool := (k <=? 1) || (fst clk mod k =? 0).
   Definition abf_sleep (c : abf_cfg) (s : abf_state) (i : abf_in) : abf_state * abf_out :=
     (mkSt (s_cnt s) (s_sum s) (s_bin s) (s_fbin s) (s_fabf s) (s_fprev s) (s_ft s) (s_fold s) (s_eng s) (s_fj s)
-          (fst (st_clk s i)) true (s_japp s),
+          (fst (st_clk s i)) true (s_japp s) (s_tfok s),
      mkOut (s_bin s) (s_fabf s) (vzero (c_nd c)) (vzero (c_nd c)) (fst (st_clk s i)) (snd (st_clk s i)) (s_ft s)).
   Definition mts_out (c : abf_cfg) (k : Z) (i : abf_in) (o : abf_out) : abf_out :=
     let fapp := vbuild (c_nd c) (fun d => nmul O (nmul O (nofZ O k) (vget (o_fabf o) d)) (sfac c (st_bin c i))) in
@@ -303,7 +308,7 @@ Section ABF.
   Definition abf_add_data (c : abf_cfg) (s : abf_state) (d : dataset) : abf_state :=
     mkSt (fun b => s_cnt s b + fst d b)
          (fun b => vbuild (c_nd c) (fun k => nadd O (vget (s_sum s b) k) (nmul O (vget (snd d b) k) (nofZ O (fst d b)))))
-         (s_bin s) (s_fbin s) (s_fabf s) (s_fprev s) (s_ft s) (s_fold s) (s_eng s) (s_fj s) (s_rel s) (s_started s) (s_japp s).
+         (s_bin s) (s_fbin s) (s_fabf s) (s_fprev s) (s_ft s) (s_fold s) (s_eng s) (s_fj s) (s_rel s) (s_started s) (s_japp s) (s_tfok s).
   Definition abf_init_data (c : abf_cfg) (l : list dataset) : abf_state :=
     fold_left (abf_add_data c) l (abf_init c).
   Definition abf_run_data (c : abf_cfg) (l : list dataset) (h : list abf_in) :=
@@ -314,11 +319,13 @@ Section ABF.
      applies must be a function of these grids.
      EvRestart: the state is loaded into a new instance (new module: step_relative 0 at its first step, every other
      field as after init).  EvReload: the state is loaded into the instance that is running (`cv load`): the grids are
-     replaced, it_restart := it (the next regular step has step_relative 1), everything else is kept. *)
+     replaced, it_restart := it (the next regular step has step_relative 1), the variables forget the step they were
+     last computed at (no lagged total force at the next step: the force exerted at the last step before the load is
+     dropped, as after a restart), everything else is kept. *)
   Definition abf_set_grids (c : abf_cfg) (s : abf_state) (d : dataset) (rel : Z) : abf_state :=
     mkSt (fst d)
          (fun b => vbuild (c_nd c) (fun k => nmul O (vget (snd d b) k) (nofZ O (fst d b))))
-         (s_bin s) (s_fbin s) (s_fabf s) (s_fprev s) (s_ft s) (s_fold s) (s_eng s) (s_fj s) rel (s_started s) (s_japp s).
+         (s_bin s) (s_fbin s) (s_fabf s) (s_fprev s) (s_ft s) (s_fold s) (s_eng s) (s_fj s) rel (s_started s) (s_japp s) false.
   Inductive abf_event :=
   | EvStep (i : abf_in)
   | EvRestart (d : dataset)
